@@ -3,11 +3,18 @@
 Domain : 2-6 flows, each `match Ev(<subset of the event's 3 parameters>)` (specificity = #unmentioned), optional
          `priority p`, then `start <action>`; action identities drawn so that equal actions occur; loop per flow
          (parent loop / @loop("L1") / @loop("NEW")); flows whose pattern does not fit; a wrapper variant where the
-         match sits one level down (`await inner_i`); tie-break outcomes drawn (statemachine.random replaced).
+         match sits one level down (`await inner_i`); a chained variant where every flow has its own depth: direct, or
+         behind 1-2 helper flows whose Finished event is matched by flow name / awaited (own helper or one helper shared
+         by several competitors), each level with its own `priority`; tie-break outcomes drawn (statemachine.random replaced).
 Oracle : per loop, winners = flows whose action equals the action of ONE top-scoring flow (score = 0.9^unmentioned
          x priority; exact ties -> any of them, validity predicate); each winning action started exactly once,
          all other fitting flows of the loop are stopped, winners and non-fitting flows still running.
+         Chained variant: a winner is asserted only where 'fewest unmentioned parameters along the whole chain' (product)
+         and the element-wise comparison of the chains (missing elements = exact match) name the same top set for every
+         value the score of a Finished-match can have; otherwise only 'exactly one action set proceeds' is checked and the
+         case is counted as skipped.
 """
+import json
 from collections import Counter
 
 from hypothesis import strategies as st
@@ -23,13 +30,28 @@ RULE = (
     "[one value wrong => does not fit]) then start UtteranceBotAction(script=A|B|C) or GestureBotAction(gesture=A|B); "
     "direct or wrapped one level down (all flows of a case use the same depth); some flows start their action through a head fork (`when <Action>`), in a quarter of those cases a supervisor flow in its own loop stops one competitor with `send StopFlow` on the same event; in one direct case of three a second round follows: the co-winners "
     "share one action object, its Finished event is fed and they compete again on `match $a.Finished()` (only priorities differ) with second actions; event Ev(a=1,b=2,c=3); tie-break index list "
-    "drawn. Non-trivial = some loop has >=3 fitting flows with >=2 distinct scores, or an exact tie between different "
-    "actions, or >=2 loops with fitting flows; distinct by case."
+    "drawn. About a fifth of the generated cases are CHAINED: every flow has its own depth - direct, or its match on Ev sits in a helper flow (own helper h<i>, or "
+    "one of 0-2 helpers hs<k> started by main and shared by several competitors) and the flow reaches its action through 1-2 links, each either "
+    "`start X` + `match X.Finished()` by flow name or `await X`, each level (helper, middle flow, competitor) with its own priority from {none,1.0,0.5,0.1}; "
+    "forced shapes (2 of 7 each): the chain of flow 1 is a proper prefix of the chain of flow 0 (same loop/specificity/priority, fewer links), or flows differ "
+    "from flow 0 only in the priority of one link, i.e. in a flow that matches an internal Finished event; (1 of 7) identical chains. An enumerated family (900 cases) "
+    "pairs every long form (6 link patterns x own/shared helper x 3 settings of the external match) with each of its proper prefixes and with a copy whose priority "
+    "differs in one link, in both start orders, for both tie-break outcomes, with/without a third less specific direct competitor. "
+    "Non-trivial = some loop has >=3 fitting flows with >=2 distinct scores, or an exact tie between different "
+    "actions, or >=2 loops with fitting flows; chained: a loop with >=2 different actions where the winner is determined and somebody loses or an exact tie "
+    "between different actions exists; distinct by case."
 )
 ASSUMPTIONS = [
     "scores within 1e-9 are treated as tied and any tied flow may win (validity predicate)",
     "in the wrapped variant the priority statement sits in the inner flow that performs the match, so the first element of the score chain is 0.9^u x p",
     "only action starts compete; the event carries exactly the three parameters a, b, c",
+    "chained cases: the score chain of a flow is [0.9^u x p of the match on Ev] followed by one element per link = (score of the match on the helper's "
+    "Finished event) x (priority of the flow that performs this match); the score of a Finished-match is NOT taken from the implementation: a match by flow "
+    "name is an unknown N in (0,1) (the FlowFinished event has parameters besides flow_id that stay unmentioned), the match behind `await` an unknown A in (0,1], "
+    "the same N / A for all helper flows (they are parameterless)",
+    "chained cases: a winner is asserted only if 'most specific along the whole chain' (product of all elements) and the element-by-element comparison from the "
+    "external event on (missing elements count as exact match 1.0; this is what the interpreter implements) yield the same top set for every admissible N, A; "
+    "otherwise the case is counted as skipped after checking only that exactly one action set proceeds, losers are stopped and non-fitting flows untouched",
 ]
 WALL = {"quick": 150, "thorough": 1500}
 PARAMS = {"a": 1, "b": 2, "c": 3}
@@ -37,7 +59,7 @@ ACTIONS = [("UtteranceBotAction", "script", "A"), ("UtteranceBotAction", "script
 
 
 def budget(tier):
-    return 4000 if tier == "quick" else 60000
+    return 6000 if tier == "quick" else 80000
 
 
 @st.composite
@@ -55,12 +77,87 @@ def _flow(draw):
     }
 
 
+LINK_PRIOS = [None, None, 1.0, 0.5, 0.1]
+
+
+def _cp(x):
+    return json.loads(json.dumps(x))
+
+
+@st.composite
+def _links(draw, shared):
+    n = draw(st.sampled_from([1, 1, 1, 2]))
+    links = [{"how": draw(st.sampled_from(["name", "name", "await"])), "priority": draw(st.sampled_from(LINK_PRIOS))} for _ in range(n)]
+    if shared:
+        links[0]["how"] = "name"  # a shared helper is started by main; its Finished event can only be matched by flow name
+    return links
+
+
+@st.composite
+def _chain_case(draw, flows):
+    """Every flow has its own depth: `direct` (matches Ev itself), `own` (a helper flow h<i> matches Ev; the flow reaches its
+    action through 1-2 links, each a `start X` + `match X.Finished()` by flow name or an `await X`, each level with its own
+    priority) or `shared` (same, but the innermost helper hs<k> is started by main and shared by several competitors)."""
+    flows = _cp(flows)
+    helpers = [
+        {"mentioned": h["mentioned"], "wrong": h["wrong"], "priority": h["priority"]} for h in draw(st.lists(_flow(), max_size=2))
+    ]
+    forms = []
+    for _ in flows:
+        kind = draw(st.sampled_from(["direct", "direct", "own", "own", "shared"] if helpers else ["direct", "own"]))
+        if kind == "direct":
+            forms.append({"kind": "direct"})
+        elif kind == "own":
+            forms.append({"kind": "own", "links": draw(_links(False))})
+        else:
+            forms.append({"kind": "shared", "helper": draw(st.integers(0, len(helpers) - 1)), "links": draw(_links(True))})
+    shape = draw(st.sampled_from(["free", "free", "tie", "prefix", "prefix", "link-priority", "link-priority"]))
+    if shape != "free":
+        if shape != "tie" and forms[0]["kind"] == "direct":
+            forms[0] = {"kind": "own", "links": draw(_links(False))}
+        f0 = flows[0]
+        same = {"mentioned": f0["mentioned"], "wrong": f0["wrong"], "priority": f0["priority"], "loop": f0["loop"]}
+        if shape == "tie":
+            # identical chains (exact tie) unless the actions are equal
+            flows[1] = dict(flows[1], **same)
+            forms[1] = _cp(forms[0])
+        elif shape == "prefix":
+            # the chain of flow 1 is a proper prefix of the chain of flow 0 (same first elements, flow 0 has more links)
+            keep = draw(st.integers(0, len(forms[0]["links"]) - 1))
+            flows[1] = dict(flows[1], **same)
+            if keep == 0:
+                forms[1] = {"kind": "direct"}
+                if forms[0]["kind"] == "shared":
+                    h = helpers[forms[0]["helper"]]
+                    flows[1] = dict(flows[1], mentioned=h["mentioned"], wrong=h["wrong"], priority=h["priority"])
+            else:
+                forms[1] = dict(_cp(forms[0]), links=_cp(forms[0]["links"][:keep]))
+        else:
+            # competitors that differ only in the priority declared in a flow that matches an INTERNAL (Finished) event
+            for i in range(1, len(flows)):
+                if i == 1 or draw(st.booleans()):
+                    flows[i] = dict(flows[i], **same)
+                    forms[i] = _cp(forms[0])
+                    j = draw(st.integers(0, len(forms[i]["links"]) - 1))
+                    forms[i]["links"][j]["priority"] = draw(st.sampled_from([None, 0.5, 0.1]))
+    return {
+        "flows": flows,
+        "wrapped": False,
+        "stage2": None,
+        "forms": forms,
+        "helpers": helpers,
+        "choices": draw(st.lists(st.integers(0, 5), min_size=1, max_size=4)),
+    }
+
+
 @st.composite
 def _case(draw):
     flows = draw(st.lists(_flow(), min_size=2, max_size=6))
     if draw(st.booleans()):
         # force interesting shapes: copy the specificity of flow 0 to flow 1 (tie) with a different action
         flows[1] = dict(flows[1], mentioned=flows[0]["mentioned"], wrong=flows[0]["wrong"], priority=flows[0]["priority"], loop=flows[0]["loop"])
+    if draw(st.integers(0, 3)) == 3:
+        return draw(_chain_case(flows))
     wrapped = draw(st.integers(0, 3)) == 0
     stage2 = None
     if not wrapped and draw(st.integers(0, 2)) == 0:
@@ -84,7 +181,165 @@ def strategy(tier):
     return _case()
 
 
+def enumerate_cases(tier):
+    """Small systematic family of chained cases: every long form (1-2 links, by name / await, own / shared helper) against
+    (a) its own proper prefixes and (b) a copy that differs in the priority of one link; both start orders, both tie-break
+    outcomes, three (mentioned, priority) settings of the match on the external event, with and without a third, less
+    specific direct competitor."""
+    hows = [["name"], ["await"], ["name", "name"], ["name", "await"], ["await", "name"], ["await", "await"]]
+    bases = [(["a", "b", "c"], None), (["a"], 0.5), ([], None)]
+    for mentioned, p in bases:
+        for kind in ("own", "shared"):
+            for how in hows:
+                if kind == "shared" and how[0] != "name":
+                    continue
+                long_form = {"kind": kind, "links": [{"how": h, "priority": None} for h in how]}
+                if kind == "shared":
+                    long_form["helper"] = 0
+                pairs = []
+                for keep in range(len(how)):
+                    pairs.append((long_form, {"kind": "direct"} if keep == 0 else dict(_cp(long_form), links=_cp(long_form["links"][:keep]))))
+                for j in range(len(how)):
+                    for hi, lo in ((None, 0.5), (0.5, 0.1)):
+                        a, b = _cp(long_form), _cp(long_form)
+                        a["links"][j]["priority"], b["links"][j]["priority"] = hi, lo
+                        pairs.append((a, b))
+                for fa, fb in pairs:
+                    for order in (0, 1):
+                        for third in (False, True):
+                            if third and not mentioned:
+                                continue
+                            forms = [fa, fb][:: 1 - 2 * order] + ([{"kind": "direct"}] if third else [])
+                            flows = [{"mentioned": mentioned, "wrong": None, "priority": p, "action": i, "loop": None} for i in range(2)]
+                            if third:
+                                flows.append({"mentioned": [], "wrong": None, "priority": None, "action": 2, "loop": None})
+                            for choice in (0, 1):
+                                yield {
+                                    "flows": flows,
+                                    "wrapped": False,
+                                    "stage2": None,
+                                    "forms": _cp(forms),
+                                    "helpers": [{"mentioned": mentioned, "wrong": None, "priority": p}] if kind == "shared" else [],
+                                    "choices": [choice],
+                                }
+
+
+def _base(case, i):
+    """The flow statement that matches the external event: the flow itself, or the shared helper it hangs on."""
+    form = (case.get("forms") or [None] * (i + 1))[i]
+    if form and form["kind"] == "shared":
+        return case["helpers"][form["helper"]]
+    return case["flows"][i]
+
+
+def _match_ev(f):
+    args = ", ".join(f"{k}={PARAMS[k] + (10 if k == f['wrong'] else 0)}" for k in f["mentioned"])
+    return ([f"  priority {f['priority']}"] if f["priority"] is not None else []) + [f"  match Ev({args})"]
+
+
+def _chain_program(case):
+    lines = []
+    for k, h in enumerate(case["helpers"]):
+        lines += [f"flow hs{k}"] + _match_ev(h) + [""]
+    for i, (f, form) in enumerate(zip(case["flows"], case["forms"])):
+        typ, key, val = ACTIONS[f["action"]]
+        deco = [f'@loop("{f["loop"]}")'] if f["loop"] else []
+        tail = [f'  start {typ}({key}="{val}")', f"  match Never{i}()", ""]
+        if form["kind"] == "direct":
+            lines += deco + [f"flow c{i}"] + _match_ev(f) + tail
+            continue
+        if form["kind"] == "own":
+            lines += [f"flow h{i}"] + _match_ev(f) + [""]
+            below, started = f"h{i}", False
+        else:
+            below, started = f"hs{form['helper']}", True
+        for j, link in enumerate(form["links"]):
+            last = j == len(form["links"]) - 1
+            name = f"c{i}" if last else f"m{i}"
+            body = [f"  priority {link['priority']}"] if link["priority"] is not None else []
+            if link["how"] == "await":
+                body += [f"  await {below}"]
+            else:
+                body += ([] if started else [f"  start {below}"]) + [f"  match {below}.Finished()"]
+            lines += (deco if last else []) + [f"flow {name}"] + body + (tail if last else [""])
+            below, started = name, False
+    lines.append("flow main")
+    for k in range(len(case["helpers"])):
+        lines.append(f"  start hs{k}")
+    for i in range(len(case["flows"])):
+        lines.append(f"  start c{i}")
+    lines += ["  match Never()", ""]
+    return "\n".join(lines)
+
+
+def _chain(case, i):
+    """Score chain of flow i as list of (known factor, #unknown name-match factors, #unknown await-match factors)."""
+    b = _base(case, i)
+    els = [(score(b), 0, 0)]
+    for link in case["forms"][i].get("links", []):
+        els.append((link["priority"] or 1.0, 1 if link["how"] == "name" else 0, 1 if link["how"] == "await" else 0))
+    return els
+
+
+def _cmp(x, y):
+    """Compare k*N^n*A^a for unknown N in (0,1) (a Finished-match by flow name leaves parameters unmentioned) and unknown
+    A in (0,1] (the match behind `await`): '>', '<', '=' or '?' (depends on the unknown values)."""
+    (k, n, a), (k2, n2, a2) = x, y
+    if (n, a) == (n2, a2):
+        return "=" if abs(k - k2) <= 1e-9 else (">" if k > k2 else "<")
+    if n <= n2 and a <= a2:
+        if k > k2 + 1e-9 or (abs(k - k2) <= 1e-9 and n < n2):
+            return ">"
+        return "?"
+    if n >= n2 and a >= a2:
+        if k2 > k + 1e-9 or (abs(k - k2) <= 1e-9 and n2 < n):
+            return "<"
+        return "?"
+    return "?"
+
+
+def _cmp_product(c1, c2):
+    """Reading 1: unmentioned parameters (and priorities) accumulated along the whole chain."""
+    tot = lambda c: (_prod([e[0] for e in c]), sum(e[1] for e in c), sum(e[2] for e in c))  # noqa: E731
+    return _cmp(tot(c1), tot(c2))
+
+
+def _cmp_elementwise(c1, c2):
+    """Reading 2: element by element from the external event on; a missing element counts as an exact match (1.0)."""
+    for j in range(max(len(c1), len(c2))):
+        r = _cmp(c1[j] if j < len(c1) else (1.0, 0, 0), c2[j] if j < len(c2) else (1.0, 0, 0))
+        if r != "=":
+            return r
+    return "="
+
+
+def _prod(xs):
+    p = 1.0
+    for x in xs:
+        p *= x
+    return p
+
+
+def _top(cmp, chains, fit):
+    for i in fit:
+        rel = {j: cmp(chains[i], chains[j]) for j in fit}
+        if all(r in "=>" for r in rel.values()):
+            return sorted(j for j in fit if rel[j] == "=")
+    return None
+
+
+def _chain_desc(case, i):
+    b = _base(case, i)
+    form = case["forms"][i]
+    s = ("hs%d:" % form["helper"] if form["kind"] == "shared" else "") + f"{score(b):.4g}"
+    for link in form.get("links", []):
+        s += f" > {link['how']}*{link['priority'] or 1.0}"
+    return s
+
+
 def program(case):
+    if case.get("forms"):
+        return _chain_program(case)
     lines = []
     for i, f in enumerate(case["flows"]):
         args = ", ".join(f"{k}={PARAMS[k] + (10 if k == f['wrong'] else 0)}" for k in f["mentioned"])
@@ -147,9 +402,19 @@ def prop(case):
     for i, f in enumerate(flows):
         key = f["loop"] if f["loop"] != "NEW" else f"NEW{i}"
         groups.setdefault(key or "main", []).append(i)
-    desc = "; ".join(
-        f"c{i}[loop={f['loop'] or 'main'} score={score(f):.4g} action={ACTIONS[f['action']][0][:3]}:{ACTIONS[f['action']][2]}]" for i, f in enumerate(flows)
-    ) + (" wrapped" if case["wrapped"] else "")
+    chained = bool(case.get("forms"))
+    sc = [score(_base(case, i)) for i in range(len(flows))]  # score of the match on the external event
+    chains = [_chain(case, i) for i in range(len(flows))] if chained else None
+    if chained:
+        desc = "; ".join(
+            f"c{i}[loop={f['loop'] or 'main'} chain={_chain_desc(case, i)} action={ACTIONS[f['action']][0][:3]}:{ACTIONS[f['action']][2]}]" for i, f in enumerate(flows)
+        ) + " chained (name/await = score of the match on the helper's Finished event, times the priority of the matching flow)"
+    else:
+        desc = "; ".join(
+            f"c{i}[loop={f['loop'] or 'main'} score={score(f):.4g} action={ACTIONS[f['action']][0][:3]}:{ACTIONS[f['action']][2]}]" for i, f in enumerate(flows)
+        ) + (" wrapped" if case["wrapped"] else "")
+    ambiguous = False
+    chain_labels = set()
     observed = {i: (status.get(i) or ["missing"])[-1] for i in range(len(flows))}
     for i in observed:
         if len(status.get(i, [])) != 1:
@@ -163,15 +428,35 @@ def prop(case):
         if observed[stopped_by_supervisor] != "stopped":
             raise Violation("stopflow-ignored", f"{desc}: c{stopped_by_supervisor} is {observed[stopped_by_supervisor]}")
     for g, members in groups.items():
-        fit = [i for i in members if score(flows[i]) > 0 and i != stopped_by_supervisor]
+        fit = [i for i in members if sc[i] > 0 and i != stopped_by_supervisor]
         for i in members:
             if i not in fit and i != stopped_by_supervisor and observed[i] != "started":
                 raise Violation("nonfitting-touched", f"{desc}: c{i} did not fit the event but is {observed[i]}")
         if not fit:
             continue
         fitting_groups += 1
-        top = max(score(flows[i]) for i in fit)
-        tied = [i for i in fit if abs(score(flows[i]) - top) <= 1e-9]
+        if chained:
+            top_product = _top(_cmp_product, chains, fit)
+            top_elementwise = _top(_cmp_elementwise, chains, fit)
+            if top_product is not None and top_product == top_elementwise:
+                tied = top_product
+            else:
+                # the statement does not say who is most specific here: only 'exactly one action set proceeds' is checked
+                tied = list(fit)
+                ambiguous = True
+            if len({len(chains[i]) for i in fit}) >= 2:
+                chain_labels.add("chain-mixed-depth")
+            if any(len(chains[i]) < len(chains[j]) and _cmp_elementwise(chains[i], chains[j][: len(chains[i])]) == "=" and flows[i]["action"] != flows[j]["action"] for i in fit for j in fit):
+                chain_labels.add("chain-prefix-of-longer-competitor")
+            if any(
+                i < j and len(chains[i]) == len(chains[j]) and _cmp(chains[i][0], chains[j][0]) == "=" and _cmp_elementwise(chains[i], chains[j]) in "<>" and flows[i]["action"] != flows[j]["action"]
+                for i in fit
+                for j in fit
+            ):
+                chain_labels.add("differ-only-on-internal-match")
+        else:
+            top = max(score(flows[i]) for i in fit)
+            tied = [i for i in fit if abs(score(flows[i]) - top) <= 1e-9]
         options = []
         for w in tied:
             a = flows[w]["action"]
@@ -190,7 +475,10 @@ def prop(case):
             if i not in running and observed[i] != "stopped":
                 raise Violation("loser-not-stopped", f"{desc}: loop {g}: losing flow c{i} is {observed[i]}")
         expected_starts_options.append(match[0][0])
-        if (len(fit) >= 3 and len({round(score(flows[i]), 9) for i in fit}) >= 2) or len(options) >= 2:
+        if chained:
+            if not ambiguous and len({flows[i]["action"] for i in fit}) >= 2 and (len(tied) < len(fit) or len(options) >= 2):
+                nt = True
+        elif (len(fit) >= 3 and len({round(score(flows[i]), 9) for i in fit}) >= 2) or len(options) >= 2:
             nt = True
     exp = Counter()
     for a in expected_starts_options:
@@ -198,7 +486,7 @@ def prop(case):
         exp[(typ, val)] += 1
     if exp != starts:
         raise Violation("wrong-actions", f"{desc}: started actions {dict(starts)}, expected {dict(exp)} (each winning action exactly once per loop)")
-    if fitting_groups >= 2:
+    if fitting_groups >= 2 and not ambiguous:
         nt = True
     stage2_done = False
     if case.get("stage2") and fitting_groups == 1:
@@ -239,10 +527,21 @@ def prop(case):
             stage2_done = True
             if len(winners1) >= 2:
                 nt = True
-    labels = [f"n{len(flows)}", f"loops{len(groups)}", "wrapped" if case["wrapped"] else "direct"]
-    if any(f["priority"] not in (None, 1.0) for f in flows):
+    labels = [f"n{len(flows)}", f"loops{len(groups)}", "chained" if chained else "wrapped" if case["wrapped"] else "direct"]
+    if chained:
+        labels += sorted(chain_labels)
+        links = [link for form in case["forms"] for link in form.get("links", [])]
+        labels += [lab for lab, on in [
+            ("shared-helper", sum(1 for form in case["forms"] if form["kind"] == "shared") >= 2),
+            ("chain-depth3", any(len(form.get("links", [])) == 2 for form in case["forms"])),
+            ("link-by-name", any(link["how"] == "name" for link in links)),
+            ("link-await", any(link["how"] == "await" for link in links)),
+            ("priority-on-internal-match", any(link["priority"] not in (None, 1.0) for link in links)),
+            ("chain-winner-ambiguous", ambiguous),
+        ] if on]
+    if any(_base(case, i)["priority"] not in (None, 1.0) for i in range(len(flows))):
         labels.append("priority")
-    if any(f["wrong"] for f in flows):
+    if any(_base(case, i)["wrong"] for i in range(len(flows))):
         labels.append("has-nonfitting")
     if smh.CHOOSER.used:
         labels.append("tie-break-used")
@@ -255,4 +554,6 @@ def prop(case):
     if any(len([1 for o in [flows[i]["action"] for i in m]]) != len({flows[i]["action"] for i in m}) for m in groups.values()):
         labels.append("equal-actions")
     view = {"flows": desc, "started": {f"{k[0]}:{k[1]}": v for k, v in starts.items()}, "status": {f"c{i}": s for i, s in observed.items()}}
+    if ambiguous:
+        return ok(nt=False, labels=labels, view=view, skip="chained: the two readings of 'most specific' disagree or depend on the score of a Finished-match")
     return ok(nt=nt, labels=labels, view=view)
